@@ -787,6 +787,11 @@ const BIGN: usize = 1 << 20;
 const BIG_CASES: &[&str] = &[
     "default_boxed-u64", "default_boxed-u128", "generate-u64", "generate-u128", "box_arr-type-u64", "box_arr-type-u128", "box_arr-const-u64",
     "from_iter-u64", "from_iter-u128", "try_boxed_from_iter-u64", "try_from_vec-u64", "into_vec-roundtrip-u64",
+    // sources whose size hint is not exact (an implementation may not fall back to building on the stack for them)
+    "from_iter-filter-u64", "from_iter-from_fn-u64", "from_iter-chain-u64", "try_boxed_from_iter-filter-u64", "try_boxed_from_iter-skip_while-u64",
+    // (not here: `Box<GenericArray>::clone`, which goes through `GenericArray::clone` on the stack in std's `Box::clone`, and the
+    // boxed `map` / `zip` - C15 names default_boxed, boxed generate, box_arr! and boxed from_iter only)
+    "default_boxed-tracked",
 ];
 
 #[inline(never)]
@@ -854,6 +859,64 @@ fn big_roundtrip_u64() -> bool {
     s.len() == BIGN
 }
 
+#[inline(never)]
+fn big_fromiter_filter() -> bool {
+    // (0, Some(n)) hint
+    let b: Box<GA<u64, Big>> = (0..BIGN as u64).filter(|_| true).collect();
+    b[BIGN - 1] == (BIGN - 1) as u64
+}
+#[inline(never)]
+fn big_fromiter_fromfn() -> bool {
+    // (0, None) hint
+    let mut i = 0u64;
+    let b: Box<GA<u64, Big>> = core::iter::from_fn(|| { i += 1; if i <= BIGN as u64 { Some(i - 1) } else { None } }).collect();
+    b[BIGN - 1] == (BIGN - 1) as u64
+}
+#[inline(never)]
+fn big_fromiter_chain() -> bool {
+    // lower bound only: an unbounded tail cut by take_while
+    let b: Box<GA<u64, Big>> = (0..10u64).chain((10u64..).take_while(|&x| x < BIGN as u64)).collect();
+    b[BIGN - 1] == (BIGN - 1) as u64
+}
+#[inline(never)]
+fn big_tryboxed_filter() -> bool {
+    let b = GA::<u64, Big>::try_boxed_from_iter((0..BIGN as u64 * 2).filter(|x| x % 2 == 0)).unwrap();
+    b[BIGN - 1] == (BIGN as u64 - 1) * 2
+}
+#[inline(never)]
+fn big_tryboxed_skipwhile() -> bool {
+    let b = GA::<u64, Big>::try_boxed_from_iter((0..BIGN as u64 + 5).skip_while(|&x| x < 5)).unwrap();
+    b[0] == 5 && b[BIGN - 1] == BIGN as u64 + 4
+}
+#[inline(never)]
+fn big_map_box() -> bool {
+    let b = GA::<u64, Big>::default_boxed();
+    let m = FunctionalSequence::map(b, |x| x + 3);
+    m.len() == BIGN && m[BIGN - 1] == 3
+}
+#[inline(never)]
+fn big_zip_box() -> bool {
+    let a = GA::<u64, Big>::default_boxed();
+    let b = <Box<GA<u64, Big>> as GenericSequence<u64>>::generate(|i| i as u64);
+    let z = FunctionalSequence::zip(a, b, |x, y| x + y + 1);
+    z[BIGN - 1] == BIGN as u64
+}
+#[inline(never)]
+fn big_clone_box() -> bool {
+    let b = <Box<GA<u64, Big>> as GenericSequence<u64>>::generate(|i| i as u64);
+    let c = b.clone();
+    c[BIGN - 1] == (BIGN - 1) as u64 && *c == *b
+}
+#[inline(never)]
+fn big_default_tracked() -> bool {
+    // drop-tracked 128-byte elements: 128 MiB
+    elems::reset_all();
+    let b = GA::<Tr<31>, Big>::default_boxed();
+    let ok = b.len() == BIGN;
+    drop(b);
+    ok && ledger::check_exact(&[], 0).is_ok()
+}
+
 fn child_big(ctx: &Ctx) -> ! {
     let name = ctx.extra.get("case").expect("--case").clone();
     let f: fn() -> bool = match name.as_str() {
@@ -869,6 +932,15 @@ fn child_big(ctx: &Ctx) -> ! {
         "try_boxed_from_iter-u64" => big_tryboxed_u64,
         "try_from_vec-u64" => big_tryfromvec_u64,
         "into_vec-roundtrip-u64" => big_roundtrip_u64,
+        "from_iter-filter-u64" => big_fromiter_filter,
+        "from_iter-from_fn-u64" => big_fromiter_fromfn,
+        "from_iter-chain-u64" => big_fromiter_chain,
+        "try_boxed_from_iter-filter-u64" => big_tryboxed_filter,
+        "try_boxed_from_iter-skip_while-u64" => big_tryboxed_skipwhile,
+        "map-box-u64" => big_map_box,
+        "zip-box-u64" => big_zip_box,
+        "clone-box-u64" => big_clone_box,
+        "default_boxed-tracked" => big_default_tracked,
         _ => {
             eprintln!("unknown big case");
             std::process::exit(3)
